@@ -350,3 +350,10 @@ def check(rep):
 
     rule_forest_root(rep)
     rule_accumulate(rep)
+    # a table that lacks a valid action (FIRST/FOLLOW/propagation/state faults) loses derivations
+    from .C05 import rule_first, rule_nullable_scans, rule_rearm, rule_states
+
+    rule_first(rep)
+    rule_nullable_scans(rep)
+    rule_rearm(rep)
+    rule_states(rep)
